@@ -304,6 +304,7 @@ type c16SessState struct {
 
 	acceptedSteps int
 	racySteps     int
+	initPending   bool // an init upload was never answered (receiver delay outlasted the run)
 	stepTimes     []int64 // fake-clock instants (ms) of the accepted steps
 	pendDelayMS   int64   // sum of delay x count of the delay faults armed for this session
 	stepHung      bool
@@ -431,7 +432,17 @@ func (r *c16Run) await(ch chan *c16RestResult, boundMS int64) *c16RestResult {
 }
 
 func (r *c16Run) rest(method, target string, body []byte) *c16RestResult {
-	return r.await(r.launch(method, target, body), c16RestTimeoutMS)
+	return r.await(r.launch(method, target, body), r.restTimeoutMS())
+}
+
+// restTimeoutMS: a REST call (a step waits for the session to take it) may legitimately wait as long as the
+// receiver delays that the scenario has armed keep the sessions busy, plus the fixed bound.
+func (r *c16Run) restTimeoutMS() int64 {
+	d := int64(c16RestTimeoutMS)
+	for _, s := range r.ss {
+		d += s.pendDelayMS
+	}
+	return d
 }
 
 func (r *c16Run) segMS(s *c16SessState) int64 {
@@ -508,7 +519,7 @@ func (r *c16Run) noteResult(c c16Call, rr *c16RestResult, racy bool) {
 			}
 		}
 		res.Violate("C16.rest-call-returns", sig,
-			"%s of session %s (%s) did not return within %d s of fake time", c.Op, s.id, s.cfg.url(), c16RestTimeoutMS/1000)
+			"%s of session %s (%s) did not return within %d s of fake time", c.Op, s.id, s.cfg.url(), r.restTimeoutMS()/1000)
 		return
 	}
 	resp := rr.resp
@@ -723,7 +734,7 @@ func (r *c16Run) run() {
 				synctest.Wait() // one release at a time: the overlap is real, the order is the scenario's
 			}
 			res.Event("conc %d calls", len(pend))
-			deadline := int64(c16RestTimeoutMS)
+			deadline := r.restTimeoutMS()
 			for _, p := range pend {
 				start := c16NowMS()
 				r.noteResult(p.call, r.await(p.ch, deadline), false)
@@ -972,8 +983,13 @@ func (r *c16Run) checkSession(s *c16SessState, qs []*c16Req, endMS int64) {
 		if first.Done && first.Status >= 300 {
 			s.initFailed = true
 		}
-		if first.Canceled {
-			continue
+		if first.Canceled || !first.Done {
+			// the init upload was still held back by the receiver when the run (or the session) ended: the session
+			// never left its start-up phase, so there is no media timing to judge
+			s.initPending = true
+			if first.Canceled {
+				continue
+			}
 		}
 		in, err := hx.ParseInit(first.Body)
 		if err != nil {
@@ -1146,12 +1162,17 @@ func (r *c16Run) checkSession(s *c16SessState, qs []*c16Req, endMS int64) {
 		for _, rep := range s.reps {
 			n := len(rep.media)
 			lo, hi := s.acceptedSteps-s.racySteps, s.acceptedSteps
-			if s.deleted && s.pendDelayMS > 0 {
-				// a receiver that holds uploads back keeps the sender behind its steps; DELETE stops the session
-				// with those segments unsent ("nothing after DELETE" wins over "one segment per step")
+			if s.deleted && (s.pendDelayMS > 0 || s.f.Chunked) {
+				// a receiver that holds uploads back, or chunked uploads that are paced over the segment duration,
+				// keep the sender behind its steps; DELETE stops the session with those segments unsent
+				// ("nothing after DELETE" wins over "one segment per step")
+				behind := s.pendDelayMS + 1000
+				if s.f.Chunked {
+					behind += 2 * r.segMS(s)
+				}
 				lo = 0
 				for _, t := range s.stepTimes {
-					if t+s.pendDelayMS+1000 < s.deleteMS {
+					if t+behind < s.deleteMS {
 						lo++
 					}
 				}
@@ -1178,7 +1199,7 @@ func (r *c16Run) checkSession(s *c16SessState, qs []*c16Req, endMS int64) {
 		r.checkDuration(s, n0, endMS, anyMedia)
 	}
 	// (8) real-time mode: not before availability; on time when nothing holds the sender back
-	if !s.cfg.stepMode() && !s.initFailed {
+	if !s.cfg.stepMode() && !s.initFailed && !s.initPending {
 		r.checkTiming(s, n0, t0, endMS, seqBad)
 	}
 }
